@@ -258,6 +258,25 @@ def g5_suffixes(ctx):
         b = ctx.facts.one(rx)
         ctx.fn(b)
         t, sites = suffix_table(ctx, b)
+        if len(t) < len(spec.SUFFIX):
+            # the table may live in a private helper of the reader (extract-method): look one and two calls down
+            seen_h = set()
+            frontier = [b.path]
+            for _ in range(2):
+                nxt = []
+                for pth in frontier:
+                    for (y, kind) in sorted(ctx.cg.edges.get(pth, ())):
+                        if kind == 'direct' and y not in seen_h and y in ctx.facts.bodies and ctx.facts.bodies[y].file.startswith('src/tokinizer/'):
+                            seen_h.add(y)
+                            nxt.append(y)
+                            hb = ctx.facts.bodies[y]
+                            t2, s2 = suffix_table(ctx, hb)
+                            if t2 and str(hb.locals.get(0, '')) == 'f64':
+                                ctx.fn(hb)
+                                for k_, v_ in t2.items():
+                                    t.setdefault(k_, v_)
+                                    sites.setdefault(k_, s2[k_])
+                frontier = nxt
         tabs[name] = t
         for suf, want in spec.SUFFIX.items():
             if suf not in t:
